@@ -378,6 +378,112 @@ theorem tx_atomic_prefix (h : String → Nat) (ops : List Op) (acked : Nat) (st 
   | notCommitted hle => exact ⟨acked, Nat.le_refl _, Nat.le_succ _, hle, rfl, tracker_consistent h _⟩
   | committed hlt => exact ⟨acked + 1, Nat.le_succ _, Nat.le_refl _, hlt, rfl, tracker_consistent h _⟩
 
+/-! ## Calls whose context ends while they run (`withWriteTx(ctx, …)`, `database/sql`'s watcher)
+
+"Acknowledged" = the call returned nil.  `acked_applied` / `unacked_unchanged`: a call is acknowledged exactly
+when its transaction was committed — whatever the point at which its context ended — and a call that returned
+an error (its own or the context's / `ErrTxDone`) left nothing.  Hence the store after ANY history with
+arbitrary context ends is the store after the acknowledged calls alone (`ctx_history_is_acked_history`), it is
+consistent (`tracker_consistent_ctx`), and after a kill it is such a store for a prefix of the issued calls
+that contains every call that had returned (`tx_atomic_prefix_ctx`). -/
+
+theorem stepCtx_alive (h : String → Nat) (st : Store) (op : Op) :
+    (stepCtx h st op .alive).1 = (step h st op).1 ∧
+    ((stepCtx h st op .alive).2 = .ok ↔ (step h st op).2 = none) := by
+  unfold stepCtx step withWriteTx
+  cases body h st op <;> simp [beginFails, commits]
+
+/-- an acknowledged call is committed: the store is the result of its whole body -/
+theorem acked_applied (h : String → Nat) (st : Store) (op : Op) (c : CtxEnd)
+    (hok : (stepCtx h st op c).2 = .ok) : body h st op = .ok (stepCtx h st op c).1 := by
+  unfold stepCtx withWriteTx at *
+  cases hb : body h st op <;> cases c <;> simp_all [beginFails, commits] <;>
+    (rename_i b; cases b <;> simp_all)
+
+/-- a call that was not acknowledged (own error, context error, `ErrTxDone`) left nothing -/
+theorem unacked_unchanged (h : String → Nat) (st : Store) (op : Op) (c : CtxEnd)
+    (hne : (stepCtx h st op c).2 ≠ .ok) : (stepCtx h st op c).1 = st := by
+  unfold stepCtx withWriteTx at *
+  cases hb : body h st op <;> cases c <;> simp_all [beginFails, commits] <;>
+    (rename_i b; cases b <;> simp_all)
+
+/-- a context that ends anywhere before Commit has taken over is never acknowledged -/
+theorem ctx_ended_not_acked (h : String → Nat) (st : Store) (op : Op) (c : CtxEnd) (hc : c ≠ .alive) :
+    (stepCtx h st op c).2 ≠ .ok := by
+  unfold stepCtx withWriteTx
+  cases hb : body h st op <;> cases c <;> simp_all [beginFails, commits] <;>
+    (rename_i b; cases b <;> simp_all)
+
+theorem stepCtx_eq_step_or_same (h : String → Nat) (st : Store) (op : Op) (c : CtxEnd) :
+    (stepCtx h st op c).1 = if (stepCtx h st op c).2 = .ok then (step h st op).1 else st := by
+  split
+  · next hok => have := acked_applied h st op c hok; simp [step, this]
+  · next hne => exact unacked_unchanged h st op c hne
+
+/-- C23 (`ctx_history_is_acked_history`): whatever the contexts do, the store shows exactly the
+acknowledged calls — every one of them, and nothing of the others. -/
+theorem ctx_history_is_acked_history (h : String → Nat) (cops : List (Op × CtxEnd)) (st : Store) :
+    runCtx h st cops = run h st (ackedOps h st cops) := by
+  induction cops generalizing st with
+  | nil => rfl
+  | cons oc rest ih =>
+    obtain ⟨op, c⟩ := oc
+    have hs := stepCtx_eq_step_or_same h st op c
+    simp only [runCtx, List.foldl_cons, ackedOps]
+    have ih' := ih (stepCtx h st op c).1
+    simp only [runCtx] at ih'
+    rw [ih']
+    split
+    · next hok => simp only [run, List.foldl_cons]; rw [hs, if_pos hok]
+    · next hne => rw [hs, if_neg hne]
+
+theorem tracker_consistent_ctx (h : String → Nat) (cops : List (Op × CtxEnd)) :
+    Consistent h (runCtx h Store.empty cops) := by
+  rw [ctx_history_is_acked_history]; exact tracker_consistent h _
+
+theorem ackedOps_take_prefix (h : String → Nat) (cops : List (Op × CtxEnd)) (st : Store) (m : Nat) :
+    ackedOps h st (cops.take m) <+: ackedOps h st cops := by
+  induction cops generalizing st m with
+  | nil => simp [ackedOps]
+  | cons oc rest ih =>
+    obtain ⟨op, c⟩ := oc
+    cases m with
+    | zero => simp [ackedOps]
+    | succ m =>
+      simp only [List.take_succ_cons, ackedOps]
+      split
+      · exact List.prefix_cons_inj _ |>.mpr (ih _ m)
+      · exact ih _ m
+
+/-- crash semantics with contexts: `returned` calls have returned (acknowledged or not); the call in flight
+is committed entirely or not at all (and, by `ctx_ended_not_acked`, not at all if its context ended) -/
+inductive RecoveredCtx (h : String → Nat) (cops : List (Op × CtxEnd)) (returned : Nat) : Store → Prop
+  | notCommitted : returned ≤ cops.length → RecoveredCtx h cops returned (runCtx h Store.empty (cops.take returned))
+  | committed : returned < cops.length → RecoveredCtx h cops returned (runCtx h Store.empty (cops.take (returned + 1)))
+
+/-- C23 (`tx_atomic_prefix_ctx`): after a kill at any moment of a history whose calls carry contexts that end
+anywhere, the re-opened store is the store of the acknowledged calls among a prefix `n` of the issued ones,
+`returned ≤ n ≤ returned + 1`; every call acknowledged before the kill is among them; it is consistent. -/
+theorem tx_atomic_prefix_ctx (h : String → Nat) (cops : List (Op × CtxEnd)) (returned : Nat) (st : Store)
+    (hr : RecoveredCtx h cops returned st) :
+    ∃ n, returned ≤ n ∧ n ≤ returned + 1 ∧ n ≤ cops.length ∧
+      st = run h Store.empty (ackedOps h Store.empty (cops.take n)) ∧
+      ackedOps h Store.empty (cops.take returned) <+: ackedOps h Store.empty (cops.take n) ∧
+      Consistent h st := by
+  have pre : ∀ n, returned ≤ n →
+      ackedOps h Store.empty (cops.take returned) <+: ackedOps h Store.empty (cops.take n) := by
+    intro n hn
+    have : cops.take returned = (cops.take n).take returned := by
+      rw [List.take_take]; congr 1; omega
+    rw [this]; exact ackedOps_take_prefix h _ _ _
+  cases hr with
+  | notCommitted hle =>
+    exact ⟨returned, Nat.le_refl _, Nat.le_succ _, hle, ctx_history_is_acked_history h _ _, pre _ (Nat.le_refl _),
+      tracker_consistent_ctx h _⟩
+  | committed hlt =>
+    exact ⟨returned + 1, Nat.le_succ _, Nat.le_refl _, hlt, ctx_history_is_acked_history h _ _, pre _ (Nat.le_succ _),
+      tracker_consistent_ctx h _⟩
+
 /-! ### non-vacuity -/
 def hx (s : String) : Nat := s.length
 def demo : List Op :=
@@ -388,4 +494,15 @@ example : (run hx Store.empty demo).pfx "b" = ["c1"] ∧ (run hx Store.empty dem
 example : (step hx (run hx Store.empty demo) (.release "b" 9)).2 = some .leaseExpired := by decide
 example : (step (fun _ => 0) (run hx Store.empty demo) (.put "a" "y")).2 = some .hashFnChanged := by decide
 example : Recovered hx demo 2 (run hx Store.empty (demo.take 3)) := .committed (by decide)
+/-- a history in which contexts end before Begin, in the body, and at Commit (both watcher states) -/
+def demoCtx : List (Op × CtxEnd) :=
+  [(.put "a" "x", .alive), (.put "b" "y", .atCommit true), (.pappend "a" "c", .atCommit false),
+   (.pappend "a" "d", .alive), (.delete "a", .inBody false), (.release "a" 3, .inBody false),
+   (.put "c" "z", .beforeBegin), (.pappend "a" "d", .alive)]
+example : ackedOps hx Store.empty demoCtx = [.put "a" "x", .pappend "a" "d"] := by decide
+example : (stepCtx hx Store.empty (.put "b" "y") (.atCommit true)).2 = .ctxErr := by decide
+example : (stepCtx hx (runCtx hx Store.empty (demoCtx.take 5)) (.release "a" 3) (.inBody false)).2 = .err .leaseExpired := by decide
+example : (runCtx hx Store.empty demoCtx).simple "b" = none ∧ (runCtx hx Store.empty demoCtx).tracker "b" = none ∧
+    (runCtx hx Store.empty demoCtx).tracker "a" = some (1, ⟨true, true, false⟩) := by decide
+example : RecoveredCtx hx demoCtx 3 (runCtx hx Store.empty (demoCtx.take 4)) := .committed (by decide)
 end Specter.C23
